@@ -447,6 +447,11 @@ func Harness_C19_SortedMap() {
 			verif.Assert(m.Has(key) == (i >= 0), "has-iff-present")
 		}
 		verif.Assert(m.Size() == len(keys), "size")
+		// the ordered views are looked at after this step or not (lazily maintained order must
+		// survive any number of unobserved mutations); always after the last step
+		if step < k-1 && verif.Choose("observe-order", 2) == 0 {
+			continue
+		}
 		gk, gv := m.Keys(), m.Values()
 		verif.Assert(len(gk) == len(keys) && len(gv) == len(keys), "keys-values-length")
 		if len(gk) == len(keys) && len(gv) == len(keys) {
